@@ -51,6 +51,7 @@ const (
 	opHeartbeat = "heartbeat"
 	opLeave     = "leaving"
 	opRemove    = "remove"
+	opReplace   = "replace" // remove the instance and register "z" in the same CAS
 )
 
 var tokensOf = map[string][]uint32{"x": {10, 11}, "y": {20, 21}, "z": {30}}
@@ -371,6 +372,18 @@ func (c *cluster) applyCAS(s step) {
 				}
 				delete(d.Ingesters, s.inst)
 				effect = func() { nd.ref[s.inst] = ent{time.Now().Unix(), true, "LEFT[]"} }
+			case opReplace:
+				// one CAS removes the instance and registers its replacement "z": the ring does not shrink
+				if !exists {
+					return nil, false, nil
+				}
+				delete(d.Ingesters, s.inst)
+				d.Ingesters["z"] = ring.InstanceDesc{Id: "z", Addr: "z", Zone: "z", State: ring.ACTIVE, Timestamp: usedNow, Tokens: tokensOf["z"], RegisteredTimestamp: usedNow}
+				t := usedNow
+				effect = func() {
+					nd.ref[s.inst] = ent{time.Now().Unix(), true, "LEFT[]"}
+					nd.ref.join(refState{"z": instEnt(ring.ACTIVE, t, tokensOf["z"])})
+				}
 			}
 			return d, true, nil
 		}
@@ -805,6 +818,7 @@ func scenariosC04() []scenario {
 		{name: "x-around-retention", nodes: 2, depth: d, ticks: 3, jumps: 1, maxCAS: 3, script: []step{{0, opReg, "x"}, {0, opRemove, "x"}, {1, opRemove, "x"}}},
 		{name: "owner-around-retention", nodes: 2, depth: d, ticks: 2, jumps: 1, maxCAS: 3, partition: true, script: []step{{0, "add-partition", ""}, {0, "add-owner", "o"}, {0, "remove-owner", "o"}, {0, "remove-partition", ""}}},
 		{name: "x-leaving-with-bystander", nodes: 2, depth: d, ticks: 1, maxCAS: k, script: []step{{0, opReg, "x"}, {1, opReg, "y"}, {0, opLeave, "x"}, {0, opRemove, "x"}, {1, opRemove, "x"}}},
+		{name: "x-replaced-by-z", nodes: 2, depth: d, ticks: 1, maxCAS: 3, script: []step{{0, opReg, "x"}, {0, opHeartbeat, "x"}, {0, opReplace, "x"}, {1, opReplace, "x"}}},
 		// partition ring: owner and partition tombstones (the owner's lifecycler writes on node 0; removals anywhere)
 		{name: "partition-owner-removal", nodes: 2, depth: d, ticks: 1, maxCAS: k, partition: true, script: []step{{0, "add-partition", ""}, {0, "add-owner", "o"}, {0, "remove-owner", "o"}, {1, "remove-owner", "o"}}},
 		{name: "partition-removal", nodes: 2, depth: d, ticks: 1, maxCAS: k, partition: true, script: []step{{0, "add-partition", ""}, {0, "set-active", ""}, {0, "remove-partition", ""}, {1, "remove-partition", ""}, {0, "add-owner", "o"}}},
